@@ -288,11 +288,19 @@ class CoseSecOpCtx:
         addl_unprotected = b''
         self.aad_scope = {0: 1, -1: 1, -2: 1}
         for param in self.sec_blk.payload.parameters or []:
+            # bytes() and dict() also take an array of integers / of pairs:
+            # a second encoding of the same authenticated value
             if param.type_code == 3:
+                if not isinstance(param.value, bytes):
+                    raise ValueError('Additional protected parameter is not a byte string')
                 self.addl_protected = bytes(param.value)
             elif param.type_code == 4:
+                if not isinstance(param.value, bytes):
+                    raise ValueError('Additional unprotected parameter is not a byte string')
                 addl_unprotected = bytes(param.value)
             elif param.type_code == 5:
+                if not isinstance(param.value, dict):
+                    raise ValueError('AAD scope parameter is not a map')
                 self.aad_scope = dict(param.value)
 
         addl_protected_map = cbor2.loads(self.addl_protected) if self.addl_protected else {}
@@ -357,7 +365,9 @@ class CoseSecOpCtx:
         msg_cls: CoseMessage = CoseMessage._COSE_MSG_ID[result.type_code]
 
         # replace detached payload
-        msg_enc = bytes(result.getfieldval('value'))
+        msg_enc = result.getfieldval('value')
+        if not isinstance(msg_enc, bytes):
+            raise ValueError('Result value is not a byte string')
         msg_dec = cbor2.loads(msg_enc)
         LOGGER.debug('Received COSE message\n%s', encode_diagnostic(msg_dec))
         msg_dec[2] = self.tgt_blk.getfieldval('btsd')
